@@ -3,8 +3,12 @@ package main
 // C10 — concurrent requests do not influence each other.
 
 import (
+	"encoding/json"
 	"fmt"
 	"os"
+	"path/filepath"
+	"sort"
+	"strings"
 	"sync"
 	"testing"
 
@@ -78,7 +82,107 @@ func judgeC10(c C10Case) *Fail {
 		return f
 	}
 	c10Stats(c, "C10")
+	c10CorpusAdd(c)
 	return nil
+}
+
+// ---- cold start: the very first requests a fresh process serves run concurrently (nothing is decided
+// sequentially beforehand, so lazily initialised shared state is first touched by several goroutines)
+
+var c10CorpusMu sync.Mutex
+var c10CorpusN int
+
+func c10CorpusAdd(c C10Case) {
+	dir := os.Getenv("VERIF_BUILD_DIR")
+	if dir == "" || os.Getenv("VERIF_PHASE") == "post" {
+		return
+	}
+	c10CorpusMu.Lock()
+	defer c10CorpusMu.Unlock()
+	if c10CorpusN >= 40 {
+		return
+	}
+	c10CorpusN++
+	f, err := os.OpenFile(filepath.Join(dir, "c10corpus-"+os.Getenv("VERIF_SHARD")+".jsonl"), os.O_APPEND|os.O_CREATE|os.O_WRONLY, 0o644)
+	if err != nil {
+		return
+	}
+	f.Write(append(mustJSON(c), '\n'))
+	f.Close()
+}
+
+func judgeC10Cold(c C10Case) *Fail {
+	do := func(b []byte) HTTPResp { return handleInProcess(b) }
+	type res struct {
+		i int
+		r HTTPResp
+	}
+	var wg sync.WaitGroup
+	out := make(chan res, 256)
+	start := make(chan struct{})
+	for i := range c.Reqs {
+		for k := 0; k < c.Copies[i]; k++ {
+			wg.Add(1)
+			go func(i int) {
+				defer wg.Done()
+				<-start
+				out <- res{i, do([]byte(c.Reqs[i]))}
+			}(i)
+		}
+	}
+	close(start)
+	wg.Wait()
+	close(out)
+	alone := make([]HTTPResp, len(c.Reqs))
+	for i, r := range c.Reqs {
+		alone[i] = do([]byte(r))
+	}
+	for x := range out {
+		if d := sameHTTP(alone[x.i], x.r); d != "" {
+			return failf("cold-concurrent-equals-sequential", "request %d answered differently when it was among the first concurrent requests of the process: %s", x.i, d)
+		}
+	}
+	return nil
+}
+
+// TestC10Cold is the post phase: one fresh process per batch, concurrent first.
+func TestC10Cold(t *testing.T) {
+	if os.Getenv("VERIF_PHASE") != "post" {
+		t.Skip("post phase only")
+	}
+	files, _ := filepath.Glob(filepath.Join(os.Getenv("VERIF_BUILD_DIR"), "c10corpus-*.jsonl"))
+	sort.Strings(files)
+	var all []C10Case
+	for _, fn := range files {
+		b, _ := os.ReadFile(fn)
+		for _, line := range strings.Split(string(b), "\n") {
+			var c C10Case
+			if line != "" && json.Unmarshal([]byte(line), &c) == nil {
+				all = append(all, c)
+			}
+		}
+	}
+	if len(all) == 0 {
+		t.Fatalf("empty C10 corpus")
+	}
+	k := int(envInt("VERIF_SHARD", 0))
+	// a diverse cold batch: three recorded batches merged, every request by two goroutines
+	var c C10Case
+	for j := 0; j < 3; j++ {
+		b := all[(k*3+j)%len(all)]
+		c.Reqs = append(c.Reqs, b.Reqs...)
+	}
+	for range c.Reqs {
+		c.Copies = append(c.Copies, 2)
+	}
+	st.inc("evaluations:C10cold")
+	writeCurCase("C10", "C10cold", c)
+	if f := judgeC10Cold(c); f != nil {
+		writeReplay("C10", "C10cold", c, f)
+		t.Fatalf("VIOLATION-CANDIDATE property=C10 check=C10cold rule=%s: %s", f.Rule, f.Detail)
+	}
+	st.inc("C10:cold-start-batches")
+	st.nontrivial("C10cold", fmt.Sprint(c.Reqs))
 }
 
 func c10Stats(c C10Case, name string) {
@@ -158,7 +262,9 @@ func judgeC10Server(c C10Case) *Fail {
 
 func init() {
 	curCaseChecks["C10"] = true
+	curCaseChecks["C10cold"] = true
 	register("C10", "C10", 1, genC10, judgeC10)
+	register("C10", "C10cold", 0.0001, genC10, judgeC10Cold)
 	register("C10", "C10server", 0.25, genC10, judgeC10Server)
 }
 
